@@ -1,7 +1,9 @@
 import RtcVerif.Model.Interp
 import RtcVerif.Model.Merge
+import RtcVerif.Model.C19MergeCode
 /-! Line-protocol driver for the C19 models (interpolation, merge_bounds). -/
 open Lean RtcVerif RtcVerif.Wire RtcVerif.Interp RtcVerif.Merge
+open RtcVerif.MergeCode (PyV mergeBoundsRef)
 
 def getFill (j : Json) (k : String) : Option Fill :=
   match getObj j k with
@@ -39,6 +41,32 @@ def bndToJson : Bnd → Json
   | .ts1 t vs => Json.mkObj [("k", "ts"), ("t", ratsJ t), ("v", evalsJ vs)]
   | .ts2 t rows => Json.mkObj [("k", "ts2"), ("t", ratsJ t), ("v", Json.arr (rows.map evalsJ).toArray)]
 
+/-- code-level values (`Model/C19MergeCode.lean`): as `bndOfJson` plus the int / float flag -/
+def pyvOfJson (j : Json) : Option PyV := do
+  let k ← getStr j "k"
+  let i := (getBool j "int").getD false
+  match k with
+  | "sc" => (getEVal j "v").map (PyV.num i)
+  | "vec" => (getEValList j "v").map (PyV.arr i)
+  | "ts" => do
+      let t ← getRatList j "t"
+      let v ← getEValList j "v"
+      pure (PyV.ts1 t v)
+  | "ts2" => do
+      let t ← getRatList j "t"
+      let rows ← getArr j "v"
+      let rows ← rows.mapM asEValList
+      pure (PyV.ts2 t rows)
+  | _ => none
+
+def pyvToJson : PyV → Json
+  | .num i v => Json.mkObj [("k", "sc"), ("int", Json.bool i), ("v", v.toJson)]
+  | .arr i vs => Json.mkObj [("k", "vec"), ("int", Json.bool i), ("v", evalsJ vs)]
+  | .ts1 t vs => Json.mkObj [("k", "ts"), ("int", Json.bool false), ("t", ratsJ t), ("v", evalsJ vs)]
+  | .ts2 t rows => Json.mkObj [("k", "ts2"), ("int", Json.bool false), ("t", ratsJ t),
+      ("v", Json.arr (rows.map evalsJ).toArray)]
+  | _ => Json.mkObj [("k", "other")]
+
 def handle (j : Json) : Option Json := do
   let op ← getStr j "op"
   match op with
@@ -66,6 +94,16 @@ def handle (j : Json) : Option Json := do
       match interpColumns mode (cols.map (ts.zip ·)) fl fr q with
       | none => pure (Json.str "raise")
       | some r => pure (Json.arr (r.map xvalsJ).toArray)
+  | "interp2s" =>
+      let mode ← getNat j "mode"
+      let ts ← getRatList j "ts"
+      let cols ← getRatMat j "cols"
+      let fl ← getFill j "fl"
+      let fr ← getFill j "fr"
+      let q ← getRatList j "q"
+      match q with
+      | [t] => pure (optListJ (interpColumnsScalar mode (cols.map (ts.zip ·)) fl fr t))
+      | _ => none
   | "sym" =>
       let mode ← getNat j "mode"
       let ts ← getRatList j "ts"
@@ -85,6 +123,19 @@ def handle (j : Json) : Option Json := do
           match mergeBounds lo1 hi1 lo2 hi2 with
           | none => pure (Json.str "raise")
           | some (m, M) => pure (Json.arr #[bndToJson m, bndToJson M])
+      | _, _ => none
+  | "mergecode" =>
+      let a ← getArr j "a"
+      let b ← getArr j "b"
+      match a, b with
+      | [lo1, hi1], [lo2, hi2] =>
+          let lo1 ← pyvOfJson lo1
+          let hi1 ← pyvOfJson hi1
+          let lo2 ← pyvOfJson lo2
+          let hi2 ← pyvOfJson hi2
+          match mergeBoundsRef lo1 hi1 lo2 hi2 with
+          | none => pure (Json.str "raise")
+          | some (m, M) => pure (Json.arr #[pyvToJson m, pyvToJson M])
       | _, _ => none
   | _ => none
 
